@@ -355,7 +355,7 @@ func genRT(pr rtProfile) func(r *rand.Rand, w *W) [][]string {
 				pool = append(pool, p)
 				stems = append(stems, p)
 			}
-			switch r.Intn(6) {
+			switch r.Intn(7) {
 			case 0: // a parameter route that is a prefix of another one, emptied by explicit method lists, then its twin
 				par := pick(r, []string{"{id}", "{id:digit}", "{id:\\d+}", "{id:[a-z]+}"})
 				if par == "{id:digit}" && len(ics) == 0 {
@@ -410,6 +410,14 @@ func genRT(pr rtProfile) func(r *rand.Rand, w *W) [][]string {
 				ops = append(ops, append([]string{"remove", "r", base + "/e1"}, list()...))
 				ops = append(ops, append([]string{"remove", "r", base + "/e2"}, list()...))
 				w.Count("shape-two-level-prune")
+			case 5: // a name used once capturing and once ignored (rejected: same name twice); were it accepted, abandoning
+				// the ignored branch would undo the ancestor's capture
+				ig := pick(r, []string{"{-id:\\d+}", "{-id}", "{-id:[0-9]+}"})
+				addH(base+"/{id}/a/"+ig+"/p", "GET")
+				addH(base+"/{id}/a/"+ig+"/q", "GET")
+				addH(base+"/{id}/a/{x}/r", "GET")
+				ops = append(ops, []string{"serve", "GET", base + "/5/a/7/r"}, []string{"serve", "GET", base + "/5/a/7/p"})
+				w.Count("shape-dup-name-ignored")
 			default: // '-' parameters with alternations
 				addH(base+"/{-ver:v1|v2}/users", "GET")
 				addH(base+"/{kind:a|ab}/x", "GET")
